@@ -136,3 +136,40 @@ func vhC26NormalizePath() {
 	}
 	vAssert("no-empty-or-dot-segments", okShape)
 }
+
+// vhC26Segments: longer paths than the byte-level harness reaches, built from
+// up to `segments` segments drawn from {a, bc, ., .., empty, %2e%2e, one
+// arbitrary byte}, with or without a trailing slash: the normalised path equals
+// the independent remove_dot_segments reference.
+func vhC26Segments() {
+	k := vLen("segments", 1, vParam("segments", 5))
+	x := vBytes("x", 1)
+	var raw []byte
+	for i := 0; i < k; i++ {
+		raw = append(raw, '/')
+		switch vChoose("seg", 7) {
+		case 0:
+			raw = append(raw, 'a')
+		case 1:
+			raw = append(raw, "bc"...)
+		case 2:
+			raw = append(raw, '.')
+		case 3:
+			raw = append(raw, ".."...)
+		case 4:
+		case 5:
+			raw = append(raw, "%2e%2e"...)
+		case 6:
+			raw = append(raw, x[0])
+		}
+	}
+	if vBool("trailingSlash") {
+		raw = append(raw, '/')
+	}
+	if vKnown("C26-trailing-dot") {
+		vAssume(!c26KnownTrailingDot(raw))
+	}
+	var u URI
+	u.SetPathBytes(append([]byte(nil), raw...))
+	vAssert("path-equals-reference", string(u.Path()) == string(refNormalizePath(raw)))
+}
